@@ -86,12 +86,26 @@ func NewContextWith(data map[string]interface{}) *Context {
 	}
 
 	for k, v := range Helpers.All() {
-		if !c.Has(k) {
+		if !c.isSet(k) {
 			c.Set(k, v)
 		}
 	}
 
 	return c
+}
+
+// isSet reports whether the key has been given a value, nil included, in
+// this context or one of its outer contexts. Default helpers are only added
+// under names for which this is false: a value the user stored under a
+// helper's name, even nil, is the user's choice.
+func (c *Context) isSet(key string) bool {
+	for cc := c; cc != nil; cc = cc.outer {
+		if _, ok := cc.data[key]; ok {
+			return true
+		}
+	}
+
+	return false
 }
 
 // NewContextWith returns a fully formed context using the data
@@ -106,7 +120,7 @@ func NewContextWithOuter(data map[string]interface{}, out *Context) *Context {
 	}
 
 	for k, v := range Helpers.All() {
-		if !c.Has(k) && !c.outer.Has(k) {
+		if !c.isSet(k) {
 			c.Set(k, v)
 		}
 	}
